@@ -4,10 +4,11 @@ use std::{cell::RefCell, collections::HashMap, path::PathBuf, rc::Rc, string::To
 use crate::{
     context::CommonContext,
     instruction::operation::Operation,
-    parser::{
-        parse_iter, CodePoint, Item, Macro, ParseContext, ParseResult, Paths, Segment, SegmentType,
-    },
+    parser::{parse_iter, CodePoint, Item, Macro, ParseContext, ParseResult, Paths, Segment},
 };
+
+#[cfg(test)]
+use crate::parser::SegmentType;
 
 use crate::instruction::InstructionOps;
 use failure::{bail, Error};
@@ -93,19 +94,13 @@ pub fn build_pass_0(
     // the budget of macro calls and of the lines they expand to is that of the whole build
     let mut calls = (0, 0);
     for segment in parsed.segments {
-        match segment.t {
-            SegmentType::Data | SegmentType::Eeprom => {
-                context.add_segment(segment.clone());
-            }
-            SegmentType::Code => {
-                context.add_segment(Segment {
-                    address: segment.address,
-                    t: segment.t,
-                    items: vec![],
-                });
-                pass0_internal(segment.clone(), &context, &parsed.macroses, 0, &mut calls)?;
-            }
-        }
+        // macros are called in every kind of segment
+        context.add_segment(Segment {
+            address: segment.address,
+            t: segment.t,
+            items: vec![],
+        });
+        pass0_internal(segment.clone(), &context, &parsed.macroses, 0, &mut calls)?;
     }
 
     Ok(context.as_pass0_result())
@@ -167,22 +162,18 @@ fn pass0_internal(
                         }
                         pass0_internal(segments[0].clone(), context, macroses, depth + 1, calls)?;
                         for segment in segments.iter().skip(1) {
-                            if segment.t == SegmentType::Code {
-                                context.add_segment(Segment {
-                                    address: segment.address,
-                                    t: segment.t,
-                                    items: vec![],
-                                });
-                                pass0_internal(segment.clone(), context, macroses, depth + 1, calls)?;
-                            } else {
-                                context.add_segment(segment.clone());
-                            }
+                            context.add_segment(Segment {
+                                address: segment.address,
+                                t: segment.t,
+                                items: vec![],
+                            });
+                            pass0_internal(segment.clone(), context, macroses, depth + 1, calls)?;
                         }
-                        if context.last_segment().unwrap().borrow().t != SegmentType::Code {
-                            // the calling code goes on in the code segment
+                        if context.last_segment().unwrap().borrow().t != segment.t {
+                            // the calling lines go on in their own segment
                             context.add_segment(Segment {
                                 address: 0,
-                                t: SegmentType::Code,
+                                t: segment.t,
                                 items: vec![],
                             });
                         }
@@ -210,7 +201,7 @@ fn macro_expand(
 ) -> Result<Vec<Segment>, Error> {
     let segments = Rc::new(RefCell::new(vec![Rc::new(RefCell::new(Segment {
         items: vec![],
-        t: SegmentType::Code,
+        t: context.last_segment().unwrap().borrow().t,
         address: context.last_segment().unwrap().borrow().address,
     }))]));
     if let Some(macro_body) = macroses.get(macro_name) {
